@@ -505,7 +505,8 @@ struct CaseRef { uint32_t def; uint64_t first; uint32_t count; };
 static std::vector<Def> DEFS;
 static std::vector<CaseRef> CASES;
 static std::vector<Config> CFGS;
-static unsigned g_cfgmask = 0xf;
+static unsigned g_cfgmask = 0xf, g_deepmask = 0x9;   // configurations (bit i = CFGS[i]); deepest list length of big definitions: IG/SAX2 + SG/DOM
+static int g_deep_min_len = 3;
 static bool g_conflicts_open = false;
 
 struct Line { uint64_t list; std::string xml; Claimed exp; std::vector<int> word; };
@@ -630,8 +631,10 @@ static void run_case(uint64_t idx, Ctx& c) {
     }
     if (lines.empty()) return;
     std::string doc = build_doc(d, lines);
+    unsigned mask = g_cfgmask;
+    if (d.scope != SC_ROOT && d.maxLen >= g_deep_min_len && cr.first >= words_upto(d.items.size(), d.maxLen - 1)) { mask &= g_deepmask; c.count("documents_deepest_level_two_configs"); }
     for (size_t ci = 0; ci < CFGS.size(); ci++) {
-        if (!(g_cfgmask & (1u << ci))) continue;
+        if (!(mask & (1u << ci))) continue;
         const Config& cfg = CFGS[ci];
         g_vfs->clear();
         g_vfs->put("/v/s.xsd", d.xsd);
@@ -676,32 +679,42 @@ static void run_case(uint64_t idx, Ctx& c) {
 }
 
 // =============================================================================================== spaces
-static void add_def(Def d) { build_def(d); DEFS.push_back(d); }
+static void add_def(Def d) { if (d.maxLen <= 0) return; build_def(d); DEFS.push_back(d); }
 
 static const std::vector<std::pair<TypeId, TypeId>> CROSS = {{T_INTEGER, T_DECIMAL}, {T_DECIMAL, T_INTEGER}, {T_TOKEN, T_STRING}, {T_STRING, T_TOKEN}, {T_MYINT, T_INTEGER}, {T_INTEGER, T_MYINT}, {T_MYINT, T_DECIMAL}};
 static const TypeId ALLTYPES[] = {T_STRING, T_TOKEN, T_INTEGER, T_DECIMAL, T_DATE, T_QNAME, T_BOOLEAN, T_FLOAT, T_MYINT};
 
+// list-length bounds of one sub-space, by value alphabet and by kind family (unique/key vs keyref->*)
+struct Lens { int core = 0, ext = 0, nil = 0, small = 0, refCore = 0, refExt = 0, refNil = 0, refSmall = 0, twoCarriers = 2; };
+static int g_lenOverride = -1;
+static std::string lens_json(const Lens& l) {
+    return "{\"core\":" + std::to_string(l.core) + ",\"ext\":" + std::to_string(l.ext) + ",\"nil\":" + std::to_string(l.nil) + ",\"small\":" + std::to_string(l.small) +
+           ",\"ref_core\":" + std::to_string(l.refCore) + ",\"ref_ext\":" + std::to_string(l.refExt) + ",\"ref_nil\":" + std::to_string(l.refNil) + ",\"ref_small\":" + std::to_string(l.refSmall) + ",\"k_or_at_k_cap\":" + std::to_string(l.twoCarriers) + "}";
+}
+
 // S1: value space. selector r, one field, every type, full alphabets.
-static void space_values(int scope, int lenCore, int lenExt, int lenCoreRef, int lenExtRef, int lenNil, const std::vector<int>& fields) {
+static void space_values(int scope, const Lens& L, const std::vector<int>& fields) {
     for (int kind = 0; kind < NKIND; kind++) {
         bool ref = kind >= K_REF_KEY;
         for (int f : fields) for (TypeId t : ALLTYPES) {
-            for (int vs : {VSET_CORE, VSET_EXT, VSET_NIL}) {
+            for (int vs : {VSET_CORE, VSET_EXT, VSET_NIL, VSET_SMALL}) {
                 if (vs == VSET_NIL && !(f == F_K || f == F_DOT || f == F_KORATK)) continue;
                 Def d; d.kind = kind; d.sel = S_R; d.fields = {f}; d.scope = scope; d.keyType = d.refType = t; d.vset = vs;
-                if (f == F_KORATK && vs != VSET_NIL) d.vset = vs == VSET_CORE ? VSET_SMALL : VSET_TINY;
-                d.maxLen = vs == VSET_CORE ? (ref ? lenCoreRef : lenCore) : vs == VSET_EXT ? (ref ? lenExtRef : lenExt) : lenNil;
-                if (f == F_KORATK && vs == VSET_EXT) continue;
-                if (d.maxLen <= 0) continue;
+                d.maxLen = vs == VSET_CORE ? (ref ? L.refCore : L.core) : vs == VSET_EXT ? (ref ? L.refExt : L.ext) : vs == VSET_NIL ? (ref ? L.refNil : L.nil) : (ref ? L.refSmall : L.small);
+                if (f == F_KORATK) {   // two carriers: the product alphabet is taken over the small / tiny value sets
+                    if (vs == VSET_EXT) continue;
+                    if (vs == VSET_CORE) d.vset = VSET_SMALL;
+                    if (vs == VSET_SMALL) continue;
+                    d.maxLen = std::min(d.maxLen, L.twoCarriers);
+                }
                 add_def(d);
             }
         }
         if (ref) for (auto& pr : CROSS) for (int f : fields) {
             if (f == F_ATPK || f == F_KORATK) continue;   // p:k is one global attribute declaration: one type
-            for (int vs : {VSET_CORE, VSET_EXT}) {
+            for (int vs : {VSET_CORE, VSET_EXT, VSET_SMALL}) {
                 Def d; d.kind = kind; d.sel = S_R; d.fields = {f}; d.scope = scope; d.keyType = pr.first; d.refType = pr.second; d.vset = vs;
-                d.maxLen = vs == VSET_CORE ? lenCoreRef : lenExtRef;
-                if (d.maxLen <= 0) continue;
+                d.maxLen = vs == VSET_CORE ? L.refCore : vs == VSET_EXT ? L.refExt : L.refSmall;
                 add_def(d);
             }
         }
@@ -709,6 +722,7 @@ static void space_values(int scope, int lenCore, int lenExt, int lenCoreRef, int
 }
 
 // S2: path space. every selector x 1-2 fields, small value alphabets, tuples at every position.
+//   L.small / L.refSmall: one field;  L.core / L.refCore (re-used as "two fields" bounds)
 static void space_paths(int scope, int len1, int len1Ref, int len2, int len2Ref, bool allSelectors) {
     std::vector<int> sels = {S_R, S_DESC_R, S_STAR, S_A_R, S_R_OR_S, S_P_R};
     if (allSelectors) { sels.push_back(S_CHILD_AXIS); sels.push_back(S_NS_ANY); }
@@ -719,7 +733,7 @@ static void space_paths(int scope, int len1, int len1Ref, int len2, int len2Ref,
                 Def d; d.kind = kind; d.sel = sel; d.fields = {f}; d.scope = scope; d.keyType = d.refType = T_INTEGER; d.vset = VSET_SMALL;
                 d.positions = {P_CHILD, P_IN_A, P_DEEP, P_S, P_PR};
                 d.maxLen = ref ? len1Ref : len1;
-                if (f == F_KORATK) d.vset = VSET_TINY;
+                if (f == F_KORATK) { d.vset = VSET_TINY; d.positions = {P_CHILD, P_IN_A, P_PR}; }
                 add_def(d);
             }
             for (int f1 = 0; f1 < NFIELD; f1++) for (int f2 = 0; f2 < NFIELD; f2++) {
@@ -728,9 +742,9 @@ static void space_paths(int scope, int len1, int len1Ref, int len2, int len2Ref,
                 Def d; d.kind = kind; d.sel = sel; d.fields = {f1, f2}; d.scope = scope; d.keyType = d.refType = T_INTEGER; d.vset = VSET_TINY;
                 d.positions = {P_CHILD, P_IN_A, P_DEEP, P_S, P_PR};
                 d.maxLen = ref ? len2Ref : len2;
+                if (d.maxLen <= 0) continue;
                 int ncar = 0; { Def t = d; build_def(t); ncar = (int)t.carriers.size(); }
                 if (ncar >= 3) d.positions = {P_CHILD, P_IN_A, P_PR};
-                if (d.maxLen <= 0) continue;
                 add_def(d);
             }
         }
@@ -759,9 +773,11 @@ static void space_scopes(int lenRec, int lenRecRef, int lenUp) {
                 Def d; d.kind = kind; d.sel = sel; d.fields = {f}; d.scope = SC_REC; d.keyType = d.refType = t; d.vset = VSET_SMALL; d.refFirst = refFirst;
                 d.maxLen = ref ? lenRecRef : lenRec;
                 if (sel == S_DESC_R) d.positions = {P_CHILD, P_IN_A};
+                if (sel == S_DESC_R) d.vset = VSET_TINY;
                 add_def(d);
                 if (ref) {
-                    Def u = d; u.scope = SC_UP; u.maxLen = lenUp;
+                    Def u = d; u.scope = SC_UP; u.maxLen = lenUp; u.vset = VSET_TINY;
+                    if (sel == S_DESC_R) u.positions = {P_IN_A};
                     add_def(u);
                 }
             }
@@ -770,11 +786,11 @@ static void space_scopes(int lenRec, int lenRecRef, int lenUp) {
 }
 
 // S3: growth. representative lists + n unrelated distinct tuples
-static void space_growth(const std::vector<int>& ns, int len) {
+static void space_growth(const std::vector<int>& ns, int len, int flatMaxN) {
     for (int kind = 0; kind < NKIND; kind++) for (TypeId t : ALLTYPES) {
         if (t == T_BOOLEAN) continue;   // the value space has two members: no 50 distinct fillers
         for (int f : {F_ATK, F_K}) for (int n : ns) for (int place = 0; place < 3; place++) for (int scope : {SC_ROOT, SC_FLAT}) {
-            if (scope == SC_FLAT && n > 50) continue;
+            if (scope == SC_FLAT && n > flatMaxN) continue;
             Def d; d.kind = kind; d.sel = S_R; d.fields = {f}; d.scope = scope; d.keyType = d.refType = t; d.vset = VSET_SMALL; d.maxLen = len;
             d.fillerN = n; d.fillerPlace = place;
             add_def(d);
@@ -786,7 +802,14 @@ static void make_cases(uint32_t chunk) {
     for (uint32_t di = 0; di < DEFS.size(); di++) {
         const Def& d = DEFS[di];
         uint32_t ch = d.scope == SC_ROOT ? 1 : (d.fillerN ? std::max<uint32_t>(1, chunk / (d.fillerN + 1)) : chunk);
-        for (uint64_t f = 0; f < d.nLists; f += ch) CASES.push_back({di, f, (uint32_t)std::min<uint64_t>(ch, d.nLists - f)});
+        // chunks never straddle the boundary between list lengths < maxLen and = maxLen (the deepest level may run fewer configurations)
+        uint64_t shallow = d.maxLen > 0 ? words_upto(d.items.size(), d.maxLen - 1) : 0;
+        for (uint64_t f = 0; f < d.nLists;) {
+            uint64_t lim = f < shallow ? shallow : d.nLists;
+            uint32_t n = (uint32_t)std::min<uint64_t>(ch, lim - f);
+            CASES.push_back({di, f, n});
+            f += n;
+        }
     }
 }
 
@@ -798,12 +821,22 @@ static std::string slurp(const std::string& p) {
 int main(int argc, char** argv) {
     Args a(argc, argv);
     std::string space = a.str("space", "values");
+    bool T = a.str("tier", "quick") == "thorough";
     init_values();
     xml_init();
     for (int sc : {IG, SG}) for (int api : {SAX2, DOM}) { Config c; c.api = api; c.scanner = sc; c.ns = true; c.schema = true; c.val = 1; c.idc = true; CFGS.push_back(c); }
     g_cfgmask = (unsigned)a.num("cfgs", 0xf);
+    g_deepmask = (unsigned)a.num("deepcfgs", 0x9);
+    g_deep_min_len = (int)a.num("deepminlen", 3);
     g_use_known = !a.has("no-known");
     g_conflicts_open = a.has("conflicts-open");
+    {   // warm-up: the first schema load of a process builds the built-in datatype registry and other lazily initialised process-wide tables;
+        // do it once in the parent so that the forked workers inherit it
+        Def w; w.fields = {F_K}; build_def(w);
+        g_vfs->clear(); g_vfs->put("/v/s.xsd", w.xsd); g_vfs->put("/v/p.xsd", w.pxsd);
+        for (auto& cfg : CFGS) validate(cfg, std::string(DOC_OPEN) + "<g><r><k>1</k></r></g></d>");
+        g_vfs->clear();
+    }
     if (space == "file") {   // probe: validate --xml against --xsd (and --pxsd) with all four configurations
         for (auto& cfg : CFGS) {
             g_vfs->clear();
@@ -817,17 +850,39 @@ int main(int argc, char** argv) {
     }
     Runner R;
     R.name = space;
-    int L = (int)a.num("len", 2);
-    if (space == "values") space_values(SC_FLAT, L, (int)a.num("extlen", L - 1), (int)a.num("reflen", L), (int)a.num("refextlen", L - 1), (int)a.num("nillen", L), {F_ATK, F_K, F_DOT, F_ATPK, F_KORATK});
-    else if (space == "root") space_values(SC_ROOT, L, (int)a.num("extlen", 1), (int)a.num("reflen", L), (int)a.num("refextlen", 1), (int)a.num("nillen", L), {F_ATK, F_K, F_DOT});
-    else if (space == "paths") { space_paths(SC_FLAT, L, (int)a.num("reflen", L), (int)a.num("len2", L), (int)a.num("reflen2", L), true); space_pairs(SC_FLAT, (int)a.num("pairlen", L), (int)a.num("pairreflen", L)); }
-    else if (space == "rootpaths") space_paths(SC_ROOT, L, (int)a.num("reflen", L), (int)a.num("len2", 0), (int)a.num("reflen2", 0), false);
-    else if (space == "scopes") space_scopes(L, (int)a.num("reflen", L), (int)a.num("uplen", L));
-    else if (space == "growth") {
+    auto N = [&](const char* k, int q, int t) { return (int)a.num(k, T ? t : q); };
+    std::string bounds;
+    if (space == "values" || space == "root") {
+        Lens L;
+        bool root = space == "root";
+        L.core = N("core", root ? 2 : 3, root ? 3 : 4); L.ext = N("ext", root ? 1 : 2, root ? 2 : 3); L.nil = N("nil", root ? 2 : 3, root ? 3 : 4); L.small = N("small", 0, 0);
+        L.refCore = N("refcore", root ? 0 : 2, root ? 2 : 3); L.refExt = N("refext", root ? 0 : 2, root ? 1 : 2); L.refNil = N("refnil", root ? 0 : 2, root ? 2 : 3);
+        L.refSmall = N("refsmall", root ? 2 : 3, root ? 3 : 4);
+        L.twoCarriers = N("twocarriers", 2, 3);
+        if (root) space_values(SC_ROOT, L, {F_ATK, F_K, F_DOT});
+        else space_values(SC_FLAT, L, {F_ATK, F_K, F_DOT, F_ATPK, F_KORATK});
+        bounds = "\"list_len\":" + lens_json(L);
+    } else if (space == "paths") {
+        int l1 = N("len1", 2, 3), l1r = N("len1ref", 2, 2), l2 = N("len2", 1, 2), l2r = N("len2ref", 1, 2), pl = N("pairlen", 2, 3), plr = N("pairreflen", 2, 2);
+        space_paths(SC_FLAT, l1, l1r, l2, l2r, true);
+        space_pairs(SC_FLAT, pl, plr);
+        bounds = "\"list_len\":{\"one_field\":" + std::to_string(l1) + ",\"one_field_ref\":" + std::to_string(l1r) + ",\"two_fields\":" + std::to_string(l2) + ",\"two_fields_ref\":" + std::to_string(l2r) +
+                 ",\"typed_pairs\":" + std::to_string(pl) + ",\"typed_pairs_ref\":" + std::to_string(plr) + "}";
+    } else if (space == "rootpaths") {
+        int l1 = N("len1", 1, 2), l1r = N("len1ref", 1, 2);
+        space_paths(SC_ROOT, l1, l1r, 0, 0, false);
+        bounds = "\"list_len\":{\"one_field\":" + std::to_string(l1) + ",\"one_field_ref\":" + std::to_string(l1r) + "}";
+    } else if (space == "scopes") {
+        int lr = N("rec", 3, 4), lrr = N("recref", 2, 3), lu = N("up", 3, 4);
+        space_scopes(lr, lrr, lu);
+        bounds = "\"list_len\":{\"recursive\":" + std::to_string(lr) + ",\"recursive_ref\":" + std::to_string(lrr) + ",\"up\":" + std::to_string(lu) + "}";
+    } else if (space == "growth") {
         std::vector<int> ns;
         std::string s = a.str("n", "1,50,500");
         for (size_t i = 0; i < s.size();) { size_t j = s.find(',', i); if (j == std::string::npos) j = s.size(); ns.push_back(atoi(s.substr(i, j - i).c_str())); i = j + 1; }
-        space_growth(ns, L);
+        int l = N("len", 1, 2);
+        space_growth(ns, l, N("flatmaxn", 50, 500));
+        bounds = "\"list_len\":" + std::to_string(l) + ",\"fillers\":" + jstr(s);
     } else { fprintf(stderr, "unknown space %s\n", space.c_str()); return 2; }
     if (a.has("def")) { Def d = DEFS[a.num("def")]; DEFS = {d}; }
     make_cases((uint32_t)a.num("chunk", 256));
@@ -842,6 +897,6 @@ int main(int argc, char** argv) {
     R.fn = run_case;
     R.describe = [](uint64_t i) { const CaseRef& cr = CASES[i]; return "{\"def\":" + jstr(DEFS[cr.def].describe()) + ",\"first_list\":" + std::to_string(cr.first) + ",\"count\":" + std::to_string(cr.count) + "}"; };
     R.extra_json = "\"bounds\":{\"definitions\":" + std::to_string(DEFS.size()) + ",\"documents\":" + std::to_string(CASES.size()) + ",\"lists\":" + std::to_string(lists) +
-                   ",\"max_item_alphabet\":" + std::to_string(maxItems) + ",\"len\":" + std::to_string(L) + "},\"configs\":4";
+                   ",\"max_item_alphabet\":" + std::to_string(maxItems) + "," + bounds + "},\"configs\":4";
     return R.main_tail(a);
 }
